@@ -136,10 +136,13 @@ def parse_doc(text, kw):
 
 # ---------------------------------------------------------------------------------------------------
 
-def check_structure(ctx, text, kw, fail):
-    """coverage, once, balance, nesting, sibling order, identity. Returns (doc, baseline trace, entered set) or None."""
+def check_structure(ctx, text, kw, fail, root_pos=None):
+    """coverage, once, balance, nesting, sibling order, identity. Returns (doc, baseline trace, entered set) or None.
+    `root_pos`: visit the sub-tree rooted at the root_pos-th node (spec pre-order) through `ASTVisitor.visit`."""
     _v = V()
     doc = parse_doc(text, kw)
+    if root_pos is not None:
+        doc = Index(doc).nodes[root_pos]
     before = doc.to_dict()
     idx = Index(doc)
     trace = []
@@ -359,6 +362,50 @@ def check_chain(ctx, text, kw, fail, k, positions, dispatching=False):
                             or doc.to_dict() != before):
                         fail("chain:skip-not-local", "SkipNode from a chain member does not suppress exactly the later members, the children and every leave of that node",
                              {"chain": k, "member": j, "edit": act, "pos": pos})
+
+
+def snake(name):
+    import re
+    return re.sub(r"(?<!^)(?=[A-Z])", "_", name).lower()
+
+
+def check_subroots(ctx, text, kw, fail):
+    """`visit(node)` on the first node of every kind of the document as the root"""
+    doc = parse_doc(text, kw)
+    seen = set()
+    for k, n in enumerate(Index(doc).nodes):
+        if k == 0 or kind(n) in seen:
+            continue
+        seen.add(kind(n))
+        ctx.count()
+        check_structure(ctx, text, kw, lambda s, w, d: fail(s, w, dict(d, root_pos=k)), root_pos=k)
+
+
+def check_dispatching(ctx, text, kw, fail):
+    """DispatchingVisitor calls `enter_<class in snake case>` / `leave_<…>` for every node it visits, same order as a plain visitor"""
+    _v = V()
+    doc = parse_doc(text, kw)
+    log = []
+
+    class DS(_v.DispatchingVisitor):
+        pass
+    for name in dir(_v.DispatchingVisitor):
+        if name.startswith("enter_"):
+            setattr(DS, name, (lambda nm: lambda self, node: (log.append((nm, node)), node)[1])(name))
+        elif name.startswith("leave_"):
+            setattr(DS, name, (lambda nm: lambda self, node: log.append((nm, node)))(name))
+    before = doc.to_dict()
+    res = DS().visit(doc)
+    ctx.count()
+    base = []
+    doc2 = parse_doc(text, kw)
+    make_recorder(_v.ASTVisitor, 0, base).visit(doc2)
+    for nm, node in log:
+        want = nm.split("_", 1)[0] + "_" + snake(kind(node))
+        if nm != want:
+            fail("dispatch:%s->%s" % (kind(node), nm), "DispatchingVisitor calls %s for a %s node" % (nm, kind(node)), {"dispatching": True})
+    if [(nm.split("_", 1)[0], kind(n), n.loc) for nm, n in log] != [key(e) for e in base] or res is not doc or doc.to_dict() != before:
+        fail("dispatch:trace", "DispatchingVisitor does not make the calls of a plain visitor", {"dispatching": True})
 
 
 def check_transforms(ctx, text, kw, fail):
